@@ -79,25 +79,29 @@ class Space:
         """JSON-able, human-readable rendering of a case (for samples and replay files)."""
         return case
 
-    def replay_source(self, case, sig, detail) -> str:
+    def replay_source(self, case, sig, detail, tier="thorough") -> str:
         return (
             "# Replays one violating case without the explorer.\n"
             "import sys; sys.path.insert(0, %r)\n"
             "from vf import core; core.bind()\n"
             "import importlib\n"
             "mod = importlib.import_module(%r)\n"
-            "sp = [s for s in mod.spaces('thorough') if s.name == %r][0]\n"
+            "sp = [s for s in mod.spaces(%r) if s.name == %r][0]\n"
             "case = sp.decode(%r)\n"
             "out = sp.evaluate(case)\n"
             "sigs = [s for s, _ in out.viol]\n"
             "print('signatures:', sigs)\n"
             "assert %r not in sigs, 'property %s violated: ' + repr(out.viol)\n"
-            % (core.VERIF_DIR, type(self).__module__, self.name, core.canon(case), sig, self.prop)
+            % (core.VERIF_DIR, _check_module(self), tier, self.name, core.canon(case), sig, self.prop)
         )
 
     def decode(self, canon_json: str):
         """Inverse of core.canon for this space's cases (lists -> tuples)."""
         return _tuplify(json.loads(canon_json))
+
+
+def _check_module(space):
+    return "checks." + space.prop.lower()
 
 
 def _tuplify(x):
@@ -294,15 +298,15 @@ def finding_line(prop, space, sig, case, desc="TODO"):
     return f"finding: property={prop} space={space} sig={sig} case={core.canon(case)} :: {desc}"
 
 
-def write_replay(prop, sp, sig, case, detail):
+def write_replay(prop, sp, sig, case, detail, tier="thorough"):
     d = os.path.join(core.VERIF_DIR, "replay", prop)
     os.makedirs(d, exist_ok=True)
     base = os.path.join(d, core.h([sp.name, sig, core.canon(case)]))
     with open(base + ".json", "w", encoding="utf8") as f:
-        json.dump({"property": prop, "space": sp.name, "sig": sig, "case": json.loads(core.canon(case)),
+        json.dump({"property": prop, "space": sp.name, "tier": tier, "sig": sig, "case": json.loads(core.canon(case)),
                    "describe": sp.describe(case), "detail": detail}, f, ensure_ascii=False, indent=1, default=str)
     with open(base + ".py", "w", encoding="utf8") as f:
-        f.write(sp.replay_source(case, sig, detail))
+        f.write(sp.replay_source(case, sig, detail, tier))
     return base + ".json"
 
 
@@ -365,7 +369,7 @@ def finish(prop, level, reports, tier, t0, rule, assumptions=(), extra=None, exh
         if i >= MAX_REPORTED:
             print(f"... {len(unknown) - MAX_REPORTED} further minimal violators not written out")
             break
-        path = write_replay(prop, sp, sig, case, detail)
+        path = write_replay(prop, sp, sig, case, detail, tier)
         ok, msg = _confirm_fresh(prop, path)
         if not ok:
             harness_errors.append(f"violation {sig} on {core.canon(case)[:200]} did not reproduce in a fresh process: {msg}")
